@@ -142,6 +142,10 @@ def run_pair_file(unc, d, lang, cfgpath, pairs, ctxname, tag, use_lexer):
     return res
 
 
+def use_lexer_lang(lang):
+    return lang in lex.C_FAMILY
+
+
 def fusion_part(ctx):
     quick = ctx.tier == "quick"
     unc = ctx.unc()
@@ -165,6 +169,12 @@ def fusion_part(ctx):
         # replay: every pair whose first element can be followed by something on the same line
         todo = [(a, b, ang) for a, b, ang, cls in pairs if not a.startswith("//") and "\x0c" not in a + b and not ang
                 and not (lang == "D" and a.endswith(".") and b.startswith("."))]      # D lexes '1...' by its own slice rule
+        if use_lexer_lang(lang):
+            # a punctuator of uncrustify's table that is not one token of this language ('.*' in C) is not a token to preserve there
+            def istok(x):
+                return not x or not all(not ch.isalnum() and ch not in "_\"' \t" for ch in x) or lex.is_punct(x, lang)
+            todo = [p_ for p_ in todo if istok(p_[0]) and istok(p_[1])]
+            pairs = [p_ for p_ in pairs if istok(p_[0]) and istok(p_[1])]
         if quick:
             # all fusable pairs, plus a seeded slice of the safe ones
             fus = [(a, b, ang) for a, b, ang, cls in pairs if cls != "safe" and not a.startswith("//") and not ang]
